@@ -1,3 +1,4 @@
+mod http;
 mod node;
 mod seq;
 
@@ -10,6 +11,7 @@ fn main() {
     let rest = &args[2..];
     match args[1].as_str() {
         "seq" => seq::main(rest),
+        "http" => http::main(rest),
         x => {
             eprintln!("unknown subcommand {}", x);
             std::process::exit(2);
